@@ -54,6 +54,9 @@ func (e *Envelope) SetPayload(payload any) error {
 	e.envelope = &dsse.Envelope{
 		Payload:     base64.StdEncoding.EncodeToString(encodedBytes),
 		PayloadType: PayloadType,
+		// an envelope that is dumped before it is signed has to carry an empty
+		// signature list, a null one is refused by LoadMetadata
+		Signatures: []dsse.Signature{},
 	}
 
 	return nil
